@@ -17,7 +17,7 @@ import io
 import pickle
 import threading
 import time
-from queue import Empty
+from queue import Empty, Full
 
 
 class Abort(BaseException):
@@ -153,6 +153,23 @@ class Sched:
         t = self.chooser(runnable, self)
         self.choices.append((runnable.index(t), len(runnable)))
         return t
+
+    def coin(self):
+        """a scheduler-decided binary choice (0/1): does a timed put/get give up now?  Recorded like a thread choice,
+        so the DFS explores both branches."""
+        i = self.chooser.flip(self)
+        self.choices.append((i, 2))
+        return i
+
+    def timed_wait(self, blocked, exc):
+        """a put/get with a finite timeout on a full/empty queue: the thread stays runnable (the timeout will fire at some
+        point); the scheduler decides adversarially whether it fires now or others run first (at most 3 rounds)."""
+        rounds = 0
+        while blocked():
+            if rounds >= 3 or self.coin() == 1:
+                raise exc()
+            rounds += 1
+            self.yield_point()
 
     def yield_point(self, pred=None):
         me = self.me()
@@ -321,10 +338,19 @@ class FakeQueue:
             if me is s.main:
                 raise Hang(s.reason)
             raise Abort()
+        timed = (not block) or (timeout is not None)
         if self.kind == "in":
             if me.role == "L":
                 s.act("loadTake", x=self._obs_in(x))
-            s.yield_point(lambda: not self.full())
+            if timed:
+                s.yield_point()
+                if not block:
+                    if self.full():
+                        raise Full()
+                else:
+                    s.timed_wait(self.full, Full)
+            else:
+                s.yield_point(lambda: not self.full())
             self.q.append(x)
             if me.role == "L":
                 s.act("loadPut", x=self._obs_in(x))
@@ -352,7 +378,11 @@ class FakeQueue:
             raise Abort()
         if not block:
             return self.get_nowait()
-        s.yield_point(lambda: len(self.q) > 0)
+        if timeout is not None:
+            s.yield_point()
+            s.timed_wait(lambda: not self.q, Empty)
+        else:
+            s.yield_point(lambda: len(self.q) > 0)
         x = self.q.popleft()
         if self.kind == "in" and me.role == "W":
             s.act("wGet", w=me.lineage, x=self._obs_in(x))
@@ -576,6 +606,16 @@ class PolicyChooser:
         self.prefix = list(prefix or [])
         self.k = 0
         self.last = None
+
+    def flip(self, sched):
+        if self.k < len(self.prefix):
+            i = 1 if self.prefix[self.k] else 0
+            self.k += 1
+            return i
+        self.k += 1
+        if self.rng is None:
+            return 0
+        return int(self.rng.below(100) < self.policy.get("timeout_pct", 50))
 
     def __call__(self, runnable, sched):
         if self.k < len(self.prefix):
